@@ -206,12 +206,12 @@ def parse_output(text, hs):
         if not m:
             if "timed out" in sec.lower() or "Timeout" in sec:
                 r["status"] = "TIMEOUT"
-            elif "out of memory" in sec.lower() or "std::bad_alloc" in sec or "Killed" in sec:
+            elif "out of memory" in sec.lower() or "std::bad_alloc" in sec or "Killed" in sec or "CBMC failed with status 6" in sec:
                 r["status"] = "OOM"
             r["detail"] = last_error_lines(sec)
         if re.search(r"CBMC timed out|timed out after", sec):
             r["status"] = "TIMEOUT"
-        if "std::bad_alloc" in sec or "Out of memory" in sec or "memory exhausted" in sec.lower():
+        if "std::bad_alloc" in sec or "Out of memory" in sec or "memory exhausted" in sec.lower() or "CBMC failed with status 6" in sec:
             r["status"] = "OOM"
         m = re.search(r"\*\* (\d+) of (\d+) failed(?: \((\d+) undetermined\))?", sec)
         if m:
